@@ -429,6 +429,8 @@ ANCHOR_NAMES = {"_locate_droplets_in_mask_cartesian", "_locate_droplets_in_mask_
 ANCHOR_PREFIXES = ("_get_phase_field", "_make_merge_data", "_merge_data", "_image_deviation", "_write_hdf_dataset",
                    "_from_hdf_dataset", "_init_data", "_get_mpl_patch", "_args", "_data_array", "_load", "__")
 MAX_HELPER_STMTS = 40
+# a private function with exactly one call site in its module is the "worker" half of a wrapper/worker split, whatever its size
+MAX_WORKER_STMTS = 200
 # nested functions that exist on the reference tree are analysed in place (rules anchor on them); any *other* nested
 # function is a helper introduced by a refactoring and is inlined at its call sites like a private module-level helper
 NESTED_ANCHORS = {"match_tracks", "merge_data", "integrand", "get_position", "get_distance", "_image_deviation", "wrapper", "radius_from_volume",
@@ -483,6 +485,19 @@ def _count_stmts(body):
     return sum(1 for s in ast.walk(ast.Module(body=list(body), type_ignores=[])) if isinstance(s, ast.stmt))
 
 
+def _has_own_return(stmt) -> bool:
+    """a `return` of the function the statement belongs to (not of a function defined inside it)"""
+    work = [stmt]
+    while work:
+        n = work.pop()
+        if isinstance(n, ast.Return):
+            return True
+        for c in ast.iter_child_nodes(n):
+            if not isinstance(c, (ast.FunctionDef, ast.AsyncFunctionDef, ast.Lambda, ast.ClassDef)):
+                work.append(c)
+    return False
+
+
 def _returns_only_in_tail(block) -> bool:
     """after structure_exits: every Return is the last statement of its block and no
     Return sits inside a loop / try / with"""
@@ -495,7 +510,7 @@ def _returns_only_in_tail(block) -> bool:
             if last:
                 if not (_returns_only_in_tail(s.body) and _returns_only_in_tail(s.orelse)):
                     return False
-            elif any(isinstance(x, ast.Return) for x in ast.walk(s)):
+            elif _has_own_return(s):
                 return False
         elif isinstance(s, ast.Try) and last and not any(isinstance(x, ast.Return) for f_ in s.finalbody for x in ast.walk(f_)):
             # `try: return X  except E: …; return Y` — the value is computed under the same handlers after retargeting
@@ -510,7 +525,7 @@ def _returns_only_in_tail(block) -> bool:
             # `with cm: …; return X` — the value is computed inside the block either way
             if not _returns_only_in_tail(s.body):
                 return False
-        elif any(isinstance(x, ast.Return) for x in ast.walk(s) if not isinstance(x, (ast.FunctionDef, ast.Lambda))):
+        elif _has_own_return(s):
             return False
     return True
 
@@ -667,9 +682,30 @@ class Inliner:
                     if isinstance(m, ast.FunctionDef):
                         self.methods[(s.name, m.name)] = m
         self.counter = 0
+        self.call_counts = {}  # private function / method name -> number of call sites in the module
+        for n in ast.walk(module_tree):
+            if isinstance(n, ast.Call):
+                nm = n.func.id if isinstance(n.func, ast.Name) else (n.func.attr if isinstance(n.func, ast.Attribute) else None)
+                if nm and nm.startswith("_"):
+                    self.call_counts[nm] = self.call_counts.get(nm, 0) + 1
         self.local = {}  # nested helper name -> FunctionDef (while the enclosing function is processed)
         self.taken = set()  # names in use in the function that is being processed
+        self.current = None  # the top-level function that is being processed
         self.depth = 0
+        # module-level literal tables ((K1, F1), (K2, F2), …) that nothing rebinds or mutates
+        self.module_tables = {}
+        mod_stores = {}
+        for n in ast.walk(module_tree):
+            if isinstance(n, ast.Name) and isinstance(n.ctx, (ast.Store, ast.Del)):
+                mod_stores[n.id] = mod_stores.get(n.id, 0) + 1
+        mutated_ = {c.func.value.id for c in ast.walk(module_tree) if isinstance(c, ast.Call) and isinstance(c.func, ast.Attribute) and isinstance(c.func.value, ast.Name)
+                    and c.func.attr in ("append", "extend", "insert", "pop", "remove", "clear", "sort", "reverse", "update")}
+        for st_ in module_tree.body:
+            tg_ = st_.targets[0] if isinstance(st_, ast.Assign) and len(st_.targets) == 1 else (st_.target if isinstance(st_, ast.AnnAssign) else None)
+            v_ = getattr(st_, "value", None)
+            if isinstance(tg_, ast.Name) and isinstance(v_, (ast.Tuple, ast.List)) and v_.elts and mod_stores.get(tg_.id) == 1 and tg_.id not in mutated_ \
+                    and all(isinstance(r_, ast.Tuple) and all(isinstance(c_, (ast.Name, ast.Attribute, ast.Constant)) for c_ in r_.elts) for r_ in v_.elts):
+                self.module_tables[tg_.id] = v_
         self.tuples = {}  # NamedTuple class name -> field names
         for s in module_tree.body:
             if isinstance(s, ast.ClassDef) and any(ast.unparse(b).split(".")[-1] == "NamedTuple" for b in s.bases):
@@ -682,7 +718,7 @@ class Inliner:
             return False
         if any(_decorator_kind(d) is None for d in fdef.decorator_list):
             return False
-        if _count_stmts(fdef.body) > MAX_HELPER_STMTS:
+        if _count_stmts(fdef.body) > (MAX_WORKER_STMTS if self.call_counts.get(name, 0) == 1 else MAX_HELPER_STMTS):
             return False
         for n in ast.walk(fdef):
             if isinstance(n, (ast.Yield, ast.YieldFrom, ast.Await, ast.Global, ast.Nonlocal)):
@@ -811,6 +847,9 @@ class Inliner:
             simple = isinstance(a, (ast.Name, ast.Constant)) or (isinstance(a, ast.Attribute) and isinstance(a.value, ast.Name))
             if not simple and p not in assigned and _single_use(g, p):
                 simple = True  # evaluated once, where the helper uses it
+            if isinstance(a, ast.Name) and a.id == p and p in assigned and self._dead_after(a.id, at):
+                mapping[p] = p  # the worker rebinds its parameter; the caller's variable of the same name is not read afterwards
+                continue
             if simple and p not in assigned:
                 mapping[p] = None  # substitute directly
             else:
@@ -833,6 +872,22 @@ class Inliner:
         body = [Sub().visit(s) for s in body]
         body = _retarget(body, store, keep_return)
         return _tidy(pre + body)
+
+    def _dead_after(self, name, at) -> bool:
+        """the caller does not read `name` after the statement `at` (and `at` is not inside a loop)"""
+        f = self.current
+        if f is None:
+            return False
+        for lp in ast.walk(f):
+            if isinstance(lp, (ast.For, ast.While)) and any(x is at for x in ast.walk(lp)):
+                return False
+        end = getattr(at, "end_lineno", getattr(at, "lineno", 0))
+        inside = {id(x) for x in ast.walk(at)}
+        for x in ast.walk(f):
+            if isinstance(x, ast.Name) and x.id == name and isinstance(x.ctx, ast.Load) and id(x) not in inside and getattr(x, "lineno", 0) > end - 0 and getattr(x, "lineno", 0) >= getattr(at, "lineno", 0) and id(x) not in inside:
+                if getattr(x, "lineno", 0) > end:
+                    return False
+        return True
 
     # -------------------------------------------------------------- preparation of one top-level function
     def prepare(self, fdef, cls_name):
@@ -986,6 +1041,188 @@ class Inliner:
                     k = blk.index(st)
                     blk[k:k + 1] = rep
 
+        # ---- loops over a module-level literal table: the table's rows stand in the loop header (N7 then unrolls them)
+        local_stores = {x.id for x in ast.walk(fdef) if isinstance(x, ast.Name) and isinstance(x.ctx, (ast.Store, ast.Del))}
+        touched = False
+        for lp in ast.walk(fdef):
+            if isinstance(lp, ast.For) and isinstance(lp.iter, ast.Name) and lp.iter.id in self.module_tables and lp.iter.id not in local_stores:
+                lp.iter = copy.deepcopy(self.module_tables[lp.iter.id])
+                touched = True
+        if touched:
+            for blk in _blocks_all(fdef):
+                if any(isinstance(x, ast.For) for x in blk):
+                    blk[:] = norm_block(blk)
+
+        # ---- dictionary dispatch: D = {k1: f1, k2: f2}; T = D.get(X); … T(args) …  →  the call spelled out per key
+        sc, lc = {}, {}
+        for x in ast.walk(fdef):
+            if isinstance(x, ast.Name):
+                (sc if isinstance(x.ctx, (ast.Store, ast.Del)) else lc).setdefault(x.id, []).append(x)
+        for blk in _blocks_all(fdef):
+            for st in list(blk):
+                tg = st.targets[0] if isinstance(st, ast.Assign) and len(st.targets) == 1 else (st.target if isinstance(st, ast.AnnAssign) else None)
+                dv = getattr(st, "value", None)
+                if not (isinstance(tg, ast.Name) and isinstance(dv, ast.Dict) and dv.keys and len(sc.get(tg.id, [])) == 1):
+                    continue
+                if not all(isinstance(k, ast.Constant) for k in dv.keys) or not all(isinstance(v_, (ast.Name, ast.Attribute)) for v_ in dv.values):
+                    continue
+                D = tg.id
+                # every use of D is one lookup `T = D.get(X[, None])` / `T = D[X]`
+                lookups = []
+                okD = True
+                for u in lc.get(D, []):
+                    found = None
+                    for st2 in ast.walk(fdef):
+                        if isinstance(st2, ast.Assign) and len(st2.targets) == 1 and isinstance(st2.targets[0], ast.Name):
+                            v2 = st2.value
+                            if isinstance(v2, ast.Call) and isinstance(v2.func, ast.Attribute) and v2.func.attr == "get" and v2.func.value is u and 1 <= len(v2.args) <= 2 and not v2.keywords \
+                                    and (len(v2.args) == 1 or (isinstance(v2.args[1], ast.Constant) and v2.args[1].value is None)):
+                                found = (st2, v2.args[0])
+                            elif isinstance(v2, ast.Subscript) and v2.value is u:
+                                found = (st2, v2.slice)
+                    if found is None:
+                        okD = False
+                    else:
+                        lookups.append(found)
+                if not okD or len(lookups) != 1:
+                    continue
+                st2, X = lookups[0]
+                T = st2.targets[0].id
+                if len(sc.get(T, [])) != 1 or not isinstance(X, (ast.Name, ast.Attribute)):
+                    continue
+                call_funcs = {id(c.func): c for c in ast.walk(fdef) if isinstance(c, ast.Call)}
+                uses = lc.get(T, [])
+                cmp_uses = []
+                okT = True
+                for u in uses:
+                    if id(u) in call_funcs:
+                        continue
+                    par = [c for c in ast.walk(fdef) if isinstance(c, ast.Compare) and c.left is u and len(c.ops) == 1 and isinstance(c.ops[0], (ast.Is, ast.IsNot))
+                           and isinstance(c.comparators[0], ast.Constant) and c.comparators[0].value is None]
+                    if par:
+                        cmp_uses.append(par[0])
+                    else:
+                        okT = False
+                if not okT:
+                    continue
+                keys = [copy.deepcopy(k) for k in dv.keys]
+                # `T is None`  →  X not in (k1, k2)
+                class _CmpR(ast.NodeTransformer):
+                    def visit_Compare(self, n_):
+                        if any(n_ is c for c in cmp_uses):
+                            op = ast.NotIn() if isinstance(n_.ops[0], ast.Is) else ast.In()
+                            return ast.copy_location(ast.Compare(left=copy.deepcopy(X), ops=[op], comparators=[ast.Tuple(elts=[copy.deepcopy(k) for k in keys], ctx=ast.Load())]), n_)
+                        return self.generic_visit(n_)
+
+                _CmpR().visit(fdef)
+                # statements that call T: one branch per key with the callable spelled out
+                for blk2 in _blocks_all(fdef):
+                    for s3 in list(blk2):
+                        if not isinstance(s3, (ast.Return, ast.Assign, ast.AnnAssign, ast.Expr, ast.AugAssign)):
+                            continue
+                        if not any(isinstance(c, ast.Call) and isinstance(c.func, ast.Name) and c.func.id == T for c in ast.walk(s3)):
+                            continue
+                        chain = None
+                        for k, f_ in reversed(list(zip(dv.keys, dv.values))):
+                            class _TR(ast.NodeTransformer):
+                                def visit_Call(self, n_):
+                                    self.generic_visit(n_)
+                                    if isinstance(n_.func, ast.Name) and n_.func.id == T:
+                                        n_.func = copy.deepcopy(f_)
+                                    return n_
+
+                            body = [_TR().visit(copy.deepcopy(s3))]
+                            test = ast.Compare(left=copy.deepcopy(X), ops=[ast.Eq()], comparators=[copy.deepcopy(k)])
+                            chain = ast.If(test=test, body=body, orelse=[chain] if chain is not None else [s3])
+                        ast.copy_location(chain, s3)
+                        ast.fix_missing_locations(chain)
+                        blk2[blk2.index(s3)] = chain
+
+        # ---- g = (generator expression) used exactly once: the expression stands where it is consumed
+        st_count, ld = {}, {}
+        for x in ast.walk(fdef):
+            if isinstance(x, ast.Name):
+                (st_count if isinstance(x.ctx, (ast.Store, ast.Del)) else ld).setdefault(x.id, []).append(x)
+        for blk in _blocks_all(fdef):
+            for st in list(blk):
+                tg = st.targets[0] if isinstance(st, ast.Assign) and len(st.targets) == 1 else (st.target if isinstance(st, ast.AnnAssign) else None)
+                v = getattr(st, "value", None)
+                if not (isinstance(tg, ast.Name) and isinstance(v, ast.GeneratorExp)) or len(st_count.get(tg.id, [])) != 1 or len(ld.get(tg.id, [])) != 1:
+                    continue
+                use = ld[tg.id][0]
+                free_ = {x.id for x in ast.walk(v) if isinstance(x, ast.Name) and isinstance(x.ctx, ast.Load)}
+                # nothing the generator reads is rebound between its creation and its (only) use, and both are in straight-line code
+                lo_, hi_ = st.lineno, getattr(use, "lineno", st.lineno)
+                if any(lo_ < getattr(w, "lineno", 0) <= hi_ for nm in free_ for w in st_count.get(nm, [])):
+                    continue
+                if any(isinstance(lp, (ast.For, ast.While)) and (any(y is use for y in ast.walk(lp)) != any(y is st for y in ast.walk(lp))) for lp in ast.walk(fdef)):
+                    continue
+
+                class _G(ast.NodeTransformer):
+                    def visit_Name(self, n_):
+                        return copy.deepcopy(v) if n_ is use else n_
+
+                _G().visit(fdef)
+                blk[blk.index(st)] = ast.copy_location(ast.Pass(), st)
+
+        # ---- T = functools.reduce(operator.OP, ITER, INIT)  →  T = INIT; for x in ITER: T = T OP x   (left fold, same order)
+        OPS = {"add": ast.Add, "iadd": ast.Add, "mul": ast.Mult, "imul": ast.Mult, "sub": ast.Sub, "isub": ast.Sub, "or_": ast.BitOr, "ior": ast.BitOr, "and_": ast.BitAnd, "iand": ast.BitAnd}
+        for blk in _blocks_all(fdef):
+            for st in list(blk):
+                v = st.value if isinstance(st, (ast.Assign, ast.AnnAssign, ast.Return, ast.Expr)) else None
+                if not (isinstance(v, ast.Call) and ast.unparse(v.func) in ("functools.reduce", "reduce") and len(v.args) == 3 and not v.keywords):
+                    continue
+                opn = ast.unparse(v.args[0])
+                if not (opn.startswith("operator.") and opn.split(".")[-1] in OPS):
+                    continue
+                short = opn.split(".")[-1]
+                if isinstance(st, ast.Assign) and len(st.targets) == 1 and isinstance(st.targets[0], ast.Name):
+                    acc = st.targets[0].id
+                elif isinstance(st, ast.AnnAssign) and isinstance(st.target, ast.Name):
+                    acc = st.target.id
+                else:
+                    inl.counter += 1
+                    acc = f"_acc{inl.counter}"
+                inl.counter += 1
+                it, init = v.args[1], v.args[2]
+                if acc in {x.id for x in ast.walk(it) if isinstance(x, ast.Name)}:
+                    continue
+                upd_val = None
+                if isinstance(it, ast.GeneratorExp) and len(it.generators) == 1 and not it.generators[0].is_async:
+                    g0 = it.generators[0]
+                    tgt, src, conds, upd_val = g0.target, g0.iter, g0.ifs, it.elt
+                else:
+                    tgt, src, conds = ast.Name(id=f"_r{inl.counter}", ctx=ast.Store()), it, []
+                    upd_val = ast.Name(id=tgt.id, ctx=ast.Load())
+                immut_init = isinstance(init, ast.Constant) and isinstance(init.value, (int, float, complex, str, bytes, bool))
+                if (short.startswith("i") and short != "ior") or short in ("ior", "iand") or immut_init:
+                    upd = ast.AugAssign(target=ast.Name(id=acc, ctx=ast.Store()), op=OPS[short](), value=upd_val)
+                else:
+                    upd = ast.Assign(targets=[ast.Name(id=acc, ctx=ast.Store())], value=ast.BinOp(left=ast.Name(id=acc, ctx=ast.Load()), op=OPS[short](), right=upd_val), lineno=st.lineno)
+                body = [upd]
+                for c in reversed(conds):
+                    body = [ast.If(test=c, body=body, orelse=[])]
+                new_stmts = [ast.Assign(targets=[ast.Name(id=acc, ctx=ast.Store())], value=init, lineno=st.lineno), ast.For(target=tgt, iter=src, body=body, orelse=[], lineno=st.lineno)]
+                if isinstance(st, ast.Return):
+                    new_stmts.append(ast.Return(value=ast.Name(id=acc, ctx=ast.Load())))
+                for x in new_stmts:
+                    ast.copy_location(x, st)
+                    ast.fix_missing_locations(x)
+                k = blk.index(st)
+                blk[k:k + 1] = new_stmts
+
+        # ---- with contextlib.suppress(E): BODY  →  try: BODY  except E: pass
+        for blk in _blocks_all(fdef):
+            for st in list(blk):
+                if isinstance(st, ast.With) and len(st.items) == 1 and st.items[0].optional_vars is None and isinstance(st.items[0].context_expr, ast.Call) \
+                        and ast.unparse(st.items[0].context_expr.func) in ("contextlib.suppress", "suppress") and st.items[0].context_expr.args and not st.items[0].context_expr.keywords:
+                    a = st.items[0].context_expr.args
+                    typ = a[0] if len(a) == 1 else ast.Tuple(elts=list(a), ctx=ast.Load())
+                    t = ast.Try(body=st.body, handlers=[ast.ExceptHandler(type=typ, name=None, body=[ast.Pass()])], orelse=[], finalbody=[])
+                    ast.copy_location(t, st)
+                    ast.fix_missing_locations(t)
+                    blk[blk.index(st)] = t
+
         # ---- map(helper, a, b) → (helper(x0, x1) for x0, x1 in zip(a, b))
         nested_defs = {x.name: x for x in ast.walk(fdef) if isinstance(x, ast.FunctionDef) and x is not fdef and x.name not in NESTED_ANCHORS}
 
@@ -994,7 +1231,8 @@ class Inliner:
                 self.generic_visit(n)
                 if isinstance(n.func, ast.Name) and n.func.id == "map" and len(n.args) >= 2 and not n.keywords and not any(isinstance(a, ast.Starred) for a in n.args):
                     f = n.args[0]
-                    known = isinstance(f, ast.Name) and (f.id in nested_defs or (f.id in inl.funcs and f.id.startswith("_")))
+                    # map(F, …) applies F to the items in order, lazily: for any named callable it is the generator below
+                    known = isinstance(f, (ast.Name, ast.Attribute))
                     if known:
                         inl.counter += 1
                         vs = [f"_m{inl.counter}_{i}" for i in range(len(n.args) - 1)]
@@ -1006,6 +1244,28 @@ class Inliner:
                             it = ast.Call(func=ast.Name(id="zip", ctx=ast.Load()), args=list(n.args[1:]), keywords=[])
                         g = ast.GeneratorExp(elt=call, generators=[ast.comprehension(target=tgt, iter=it, ifs=[], is_async=0)])
                         return ast.fix_missing_locations(ast.copy_location(g, n))
+                # itertools.starmap(F, zip(a, b)) → (F(x0, x1) for x0, x1 in zip(a, b))
+                if ast.unparse(n.func) in ("itertools.starmap", "starmap") and len(n.args) == 2 and not n.keywords and isinstance(n.args[0], (ast.Name, ast.Attribute)):
+                    f, it = n.args
+                    inl.counter += 1
+                    if isinstance(it, ast.Call) and ast.unparse(it.func) == "zip" and it.args and not it.keywords and not any(isinstance(a, ast.Starred) for a in it.args):
+                        vs = [f"_m{inl.counter}_{i}" for i in range(len(it.args))]
+                        call = ast.Call(func=f, args=[ast.Name(id=v, ctx=ast.Load()) for v in vs], keywords=[])
+                        tgt = ast.Tuple(elts=[ast.Name(id=v, ctx=ast.Store()) for v in vs], ctx=ast.Store()) if len(vs) > 1 else ast.Name(id=vs[0], ctx=ast.Store())
+                        if len(vs) == 1:
+                            it = it.args[0]
+                    else:
+                        v = f"_m{inl.counter}"
+                        call = ast.Call(func=f, args=[ast.Starred(value=ast.Name(id=v, ctx=ast.Load()), ctx=ast.Load())], keywords=[])
+                        tgt = ast.Name(id=v, ctx=ast.Store())
+                    g = ast.GeneratorExp(elt=call, generators=[ast.comprehension(target=tgt, iter=it, ifs=[], is_async=0)])
+                    return ast.fix_missing_locations(ast.copy_location(g, n))
+                # zip(itertools.count(k), X) → enumerate(X, k)
+                if isinstance(n.func, ast.Name) and n.func.id == "zip" and len(n.args) == 2 and not n.keywords and isinstance(n.args[0], ast.Call) \
+                        and ast.unparse(n.args[0].func) in ("itertools.count", "count") and len(n.args[0].args) <= 1 and not n.args[0].keywords:
+                    start = n.args[0].args[0] if n.args[0].args else ast.Constant(value=0)
+                    e = ast.Call(func=ast.Name(id="enumerate", ctx=ast.Load()), args=[n.args[1]] + ([start] if not (isinstance(start, ast.Constant) and start.value == 0) else []), keywords=[])
+                    return ast.fix_missing_locations(ast.copy_location(e, n))
                 return n
 
         M().visit(fdef)
@@ -1506,6 +1766,7 @@ class Inliner:
         nested = {}
         outer_taken = self.taken
         if self.depth == 0:
+            self.current = fdef
             self.prepare(fdef, cls_name)
             # names in use in this function; the bodies of nested helpers that will be inlined (and removed) do not count
             helpers = [x for x in ast.walk(fdef) if isinstance(x, ast.FunctionDef) and x is not fdef and x.name not in NESTED_ANCHORS
